@@ -521,7 +521,7 @@ def atom_mapper(table: Dict[str, int]):
     return f
 
 
-def reach_condition(P, stmt: ast.stmt, mention: Optional[str] = None) -> Optional[ast.expr]:
+def reach_condition(P, stmt: ast.stmt, mention: Optional[str] = None, keep=None) -> Optional[ast.expr]:
     """The condition under which ``stmt`` is reached within one iteration of its nearest enclosing loop (or within its
     function): the tests of the enclosing `if` statements together with the negations of the terminating guards
     (`if C: continue / return / raise / break`, no else) that precede it in the enclosing blocks.  Either spelling —
@@ -545,6 +545,8 @@ def reach_condition(P, stmt: ast.stmt, mention: Optional[str] = None) -> Optiona
         child, cur = cur, P.parent(cur)
     if mention is not None:
         conj = [c for c in conj if any(isinstance(n, ast.Name) and n.id == mention for n in ast.walk(c))]
+    if keep is not None:
+        conj = [c for c in conj if keep(c)]
     if not conj:
         return None
     return conj[0] if len(conj) == 1 else ast.BoolOp(op=ast.And(), values=conj)
